@@ -88,6 +88,83 @@ def gen(tier):
     return cases
 
 
+def flatten(lrecs):
+    """Lay the recorded live sessions out as one event file for ClusterTrace.tla: a Begin record per session with
+    the manager's configuration (task capacity per machine, parallelism limit, as logged by the manager itself in
+    MgrStart) and the requests it was offered, then the manager's hook events in the order they were emitted."""
+    out = []
+    for r in lrecs:
+        evs = [e for e in r['events'] if e['ev'].startswith('Mgr')]
+        st = [e for e in evs if e['ev'] == 'MgrStart']
+        if not st:
+            continue
+        reqs = [[e['rid'], e['prio'], e['procs']] for e in evs if e['ev'] == 'MgrOffer']
+        out.append({'ev': 'Begin', 's': r['id'], 'cap': st[0]['machprocs'], 'maxp': st[0]['maxp'], 'reqs': reqs, 'seq': 0})
+        for e in evs:
+            e = dict(e)
+            e['s'] = r['id']
+            out.append(e)
+    return out
+
+
+def conformance_one(chk, wdir, tag, recs):
+    d = '%s/conf_%s' % (wdir, tag)
+    os.makedirs(d, exist_ok=True)
+    vlib.write_ndjson(d + '/c14_conf.ndjson', recs)
+    if os.path.exists(d + '/c14_conf.json'):
+        os.remove(d + '/c14_conf.json')
+    r = vlib.tlc(d, 'ClusterTrace', 'ClusterTrace.cfg', workers=1, timeout=1500)
+    chk.add_tlc('ClusterTrace ' + tag, r)
+    if not os.path.exists(d + '/c14_conf.json'):
+        return None, r
+    return json.load(open(d + '/c14_conf.json')), r
+
+
+def drift_check(chk, wdir, lrecs):
+    """Conformance of the recorded manager sessions to Cluster.tla (ClusterTrace.tla): DRIFT lines, never a violation."""
+    left = flatten(lrecs)
+    nrec, drift, accepted = len(left), [], 0
+    for attempt in range(6):
+        if not left:
+            break
+        conf, r = conformance_one(chk, wdir, 'conf%d' % attempt, left)
+        if conf is None:
+            chk.cov['drift'] = -1
+            print('DRIFT property=C14 ClusterTrace did not complete: %s' % (r.error or r.out[-300:]))
+            break
+        if conf['reached'] >= conf['n']:
+            accepted = len({x['s'] for x in left})
+            break
+        stuck = left[min(conf['reached'], len(left) - 1)]
+        cfg = next(x for x in left if x['s'] == stuck['s'] and x['ev'] == 'Begin')
+        drift.append({'session': stuck['s'], 'seq': stuck['seq'], 'ev': stuck['ev']})
+        print('DRIFT property=C14 manager session %s (capacity %d, maxp %d) is not a behaviour of Cluster.tla at event seq %s (%s)'
+              % (stuck['s'], cfg['cap'], cfg['maxp'], stuck['seq'], stuck['ev']))
+        left = [x for x in left if x['s'] != stuck['s']]
+    if chk.cov.get('drift') != -1:
+        chk.cov['drift'] = len(drift)
+    chk.cov['drift_traces'] = drift
+    chk.cov['conformance_accepted_traces'] = accepted
+    chk.cov['conformance_events'] = nrec
+    chk.cov['conformance_configurations'] = sorted({'cap=%d,maxp=%d' % (x['cap'], x['maxp']) for x in left if x['ev'] == 'Begin'})
+    # binding self-test: a done with a wrong load and a growth step with one machine too many must be rejected
+    if accepted:
+        res = []
+        for name, evk, mut in (('MgrDone.load+1', 'MgrDone', lambda x: x.update(load=x['load'] + 1)),
+                               ('MgrStart.nmach+1', 'MgrStart', lambda x: x.update(nmach=x['nmach'] + 1, pending=x['pending'] + x['machprocs']))):
+            k = next((i for i, x in enumerate(left) if x['ev'] == evk), None)
+            if k is None:
+                continue
+            cut = [dict(x) for x in left[:k + 120]]
+            mut(cut[k])
+            conf2, _ = conformance_one(chk, wdir, 'self_' + evk, cut)
+            ok2 = conf2 is not None and conf2['reached'] < conf2['n']
+            res.append({'corruption': name, 'corrupted_record': k + 1, 'rejected_at': conf2 and conf2['reached'] + 1, 'ok': ok2})
+            if not ok2:
+                raise Inconclusive('conformance self-test failed: a corrupted manager trace (%s) was accepted by ClusterTrace.tla' % name)
+        chk.cov['conformance_selftest'] = res
+
+
 def run(tier, replay=None):
     chk = vlib.Check('C14', tier)
     chk.assumptions = vlib.TRUSTED
@@ -139,6 +216,8 @@ def run(tier, replay=None):
             if rr.get('runerr'):
                 raise Inconclusive('the real-session run of case %s failed: %s' % (rr['id'], rr['runerr'][:300]))
         chk.cov['live_events'] = sum(len(rr['events']) for rr in lrecs)
+        if not replay:
+            drift_check(chk, wdir, lrecs)
         chk.cov['grants'] = sum(1 for rr in lrecs for e in rr['events'] if e['ev'] == 'MgrGrant')
         for c in cases:
             chk.case({k: c[k] for k in c if k != 'id'}, nontrivial=c['mode'] in ('live', 'e2e') or len(c['reqs']) + len(c['machs']) >= 3)
